@@ -314,6 +314,8 @@ def _main(a, pid, tier, seed, t0):
            "coverage": cov, "assumptions": getattr(mod, "ASSUMPTIONS", []), "wall_s": round(wall, 2),
            "violations": len(lines)}
     evdir = os.environ.get("VERIF_EVIDENCE_DIR", os.path.join(VERIF, "evidence"))
+    if a.skip_lean or a.only:
+        evdir = "/tmp/verif_debug_evidence"      # debug runs never overwrite real evidence
     os.makedirs(evdir, exist_ok=True)
     with open(os.path.join(evdir, f"{pid}.json"), "w") as fh:
         fh.write(dumps(evd, indent=1))
